@@ -37,6 +37,19 @@ def stats_shapes():
     add('SELECT p.k, q.w FROM p LEFT JOIN q ON p.k = q.k WHERE p.d = 1', 'left-join-where-left')
     add('SELECT p.k, q.w FROM p LEFT JOIN q ON p.k = q.k AND q.w = 2', 'left-join-on-right-pred')
     add('SELECT p.k, q.w FROM p LEFT JOIN q ON p.k = q.k WHERE COALESCE(q.w, 0) = 0', 'left-join-where-coalesce')
+    # dimension / fact pair (cust.c_id unique, dense, null-free; ord.o_cust a foreign key inside its range): the functional-dependency group-key
+    # reduction, its deferred decoration join under ORDER BY .. LIMIT, and the pruning of the row-preserving key join
+    base = 'SELECT c_id, c_name, SUM(o_amt) AS t FROM cust JOIN ord ON c_id = o_cust GROUP BY c_id, c_name'
+    add(base, 'fd-group')
+    add(base + ' ORDER BY t DESC, c_id LIMIT 2', 'fd-group+topk-key-tiebreak', ref=base, order=[(2, True, False), (0, False, False)], limit=2)
+    add(base + ' ORDER BY t DESC LIMIT 2', 'fd-group+topk', ref=base, order=[(2, True, False)], limit=2)
+    add(base + ' ORDER BY c_id DESC LIMIT 1', 'fd-group+topk-by-key', ref=base, order=[(0, True, False)], limit=1)
+    add('SELECT c_id, c_name, c_seg, COUNT(*) AS n, MAX(o_amt) AS m FROM cust JOIN ord ON c_id = o_cust GROUP BY c_id, c_name, c_seg ORDER BY n DESC, m DESC, c_id LIMIT 3', 'fd-group-3+topk',
+        ref='SELECT c_id, c_name, c_seg, COUNT(*) AS n, MAX(o_amt) AS m FROM cust JOIN ord ON c_id = o_cust GROUP BY c_id, c_name, c_seg', order=[(3, True, False), (4, True, False), (0, False, False)], limit=3)
+    add('SELECT o_cust, c_name, SUM(o_amt) AS t FROM ord JOIN cust ON o_cust = c_id GROUP BY o_cust, c_name ORDER BY t DESC, o_cust LIMIT 2', 'fd-group-fk-key+topk',
+        ref='SELECT o_cust, c_name, SUM(o_amt) AS t FROM ord JOIN cust ON o_cust = c_id GROUP BY o_cust, c_name', order=[(2, True, False), (0, False, False)], limit=2)
+    add('SELECT c_id, c_name, SUM(o_amt) AS t FROM cust JOIN ord ON c_id = o_cust JOIN r ON r.w = c_id GROUP BY c_id, c_name ORDER BY t DESC, c_id LIMIT 2', 'fd-group-3-tables+topk',
+        ref='SELECT c_id, c_name, SUM(o_amt) AS t FROM cust JOIN ord ON c_id = o_cust JOIN r ON r.w = c_id GROUP BY c_id, c_name', order=[(2, True, False), (0, False, False)], limit=2)
     add('SELECT DISTINCT k FROM p WHERE 1 = 1 AND (k > 0 OR NULL IS NULL)', 'constant-folding')
     add('SELECT k FROM p WHERE k = 1 + 1 AND 2 > 1', 'constant-folding-2')
     return S
@@ -68,11 +81,17 @@ def run(rep):
             kw = {'storage': 'parquet', 'rg': 2} if storage == 'parquet' else {}
             db = {'tables': [table('p', [['k', 'int64'], ['d', 'int64'], ['v', 'float64'], ['s', 'utf8']], prow, **kw),
                              table('q', [['k', 'int64'], ['w', 'int64'], ['d', 'int64']], qrow, **kw),
-                             table('r', [['w', 'int64'], ['z', 'int64']], rrow, **kw)]}
+                             table('r', [['w', 'int64'], ['z', 'int64']], rrow, **kw),
+                             table('cust', [['c_id', 'int64'], ['c_name', 'utf8'], ['c_seg', 'int64']], [[1, 'ann', 7], [2, 'bob', 7], [3, 'cy', 8]], **kw),
+                             table('ord', [['o_id', 'int64'], ['o_cust', 'int64'], ['o_amt', 'float64']],
+                                   # at least 4 orders over the 3 customers: o_cust never LOOKS unique (range < rows), so only the genuinely unique c_id drives the rewrite
+                                   # (the unsound uniqueness inference from min/max is C04's / C18's listed finding)
+                                   [[10 + i, (k % 3) + 1, F(['1.0', '2.5', '2.5', '4.0'][i % 4])] for i, k in enumerate(km) if k is not None]
+                                   + [[20, 1, F('1.0')], [21, 2, F('2.5')], [22, 2, F('0.5')], [23, 3, F('4.0')]], **kw)]}
             units.append({'db': db, 'stmts': sh, 'known_unopt': {'id': 'unoptimized_in_subquery_same_name_capture', 'patterns': ['k IN (SELECT k FROM q']}})
     modes = [(r,) for r in optdiff.RULES] + ['prod']
     rep.rule = ('Part A: %d corpus statements on the dirty database in memory and as Parquet; Part B: %d statistics-driven shapes (group keys over a join tree, eager aggregation, packed group/join '
-                'keys, OR-of-conjunctions, HAVING total, 3-4 table join chains, semi-join pushdown, LEFT JOIN predicate placement, constant folding) over every key multiset of 1..%d values from '
+                'keys, OR-of-conjunctions, HAVING total, 3-4 table join chains, semi-join pushdown, LEFT JOIN predicate placement, constant folding, and a dimension/fact pair whose key is provably unique and dense: functional-dependency group keys with top-k above them) over every key multiset of 1..%d values from '
                 '{1,2,5,9,NULL} (ranges exceeding row counts without being unique), Parquet (statistics) and memory; each statement executed unoptimized, with each of the 14 rules alone and with the '
                 'production pipeline; oracle: every optimized execution returns the unoptimized rows (sequence where ORDER BY is given, LIMIT slices up to ties); incomparable when the unoptimized plan refuses'
                 % (len(st), len(sh), 3 if quick else 4))
